@@ -1302,4 +1302,6 @@ func c20_runC20(e *Env) {
 	// parser-level newline invariance on expression trees x layouts (c20nl.go; its own fork of
 	// the run's generator, taken last, so the streams above are unchanged)
 	c20ParseNL(e, e.Rng.Fork())
+	// the lexer/parser bridge (c20bridge.go; again its own fork, taken after everything else)
+	c20Bridge(e, e.Rng.Fork())
 }
